@@ -317,13 +317,33 @@ def check(run, prog, tier):
     for b, i, n in opens:
         # the failure edge of `(fd = open(..)) != -1`
         c = io.branch_cond(b.id)
-        if c is None or not any(x is n or (x.get("k") == "Call" and x.get("fn") == n.get("fn") and x.get("l") == n.get("l") and show(x) == show(n)) for x in walk(c)):
-            bad.append((n.get("l"), ["the result of this open() is not tested where it is made"]))
-            continue
+        same = lambda x: x is n or (x.get("k") == "Call" and x.get("fn") == n.get("fn") and x.get("l") == n.get("l") and show(x) == show(n))
+        tb = b.id
+        if c is None or not any(same(x) for x in walk(c)):
+            # `fd = open(..);` as a statement of its own, tested in the next branch on that variable
+            tb = None
+            var = None
+            for b2, i2, n2 in io.nodes():
+                if n2.get("k") == "Asg" and n2.get("op") == "=" and strip(n2["L"]).get("k") == "Ref" and any(same(x) for x in walk(n2["R"])):
+                    var = strip(n2["L"]).get("id")
+            if var is not None:
+                for bid2 in sorted(io.reachable(), reverse=True):
+                    c2 = io.branch_cond(bid2)
+                    if c2 is None or not io.dominates(b.id, bid2):
+                        continue
+                    op2, l2, r2 = atom_of(c2, True)
+                    if strip(l2).get("k") == "Ref" and strip(l2).get("id") == var and r2 is not None and const_val(r2) in (-1, 0) and op2 in ("!=", "==", "<", ">="):
+                        tb, c = bid2, c2
+                        break
+            if tb is None:
+                bad.append((n.get("l"), ["the result of this open() is not tested"]))
+                continue
         op, l, r = atom_of(c, True)
         fail = None
         if r is not None and const_val(r) == -1:
-            fail = io.blocks[b.id].succ[1] if op == "!=" else (io.blocks[b.id].succ[0] if op == "==" else None)
+            fail = io.blocks[tb].succ[1] if op == "!=" else (io.blocks[tb].succ[0] if op == "==" else None)
+        elif r is not None and const_val(r) == 0 and op in ("<", ">="):
+            fail = io.blocks[tb].succ[0] if op == "<" else io.blocks[tb].succ[1]
         if fail is None:
             continue
         others = {b2.id for b2, i2, n2 in opens if n2 is not n}
